@@ -282,3 +282,81 @@ def _reuse_after_fault(k0: int, pos: int, x0: int, g0: int, g1: int, twice: bool
     post: _
     """
     return reuse_after_fault(k0, pos, x0, g0, g1, twice)
+
+
+# ---- histories on ONE container object that the caller restructures in place between calls ---------------------
+# (module-level caches keyed by object identity, or filled before a failing step, make later calls depend on
+# earlier ones; every call must give what a fresh interpreter gives for the container as it is NOW)
+
+import autograd.builtins as ab  # noqa: E402
+from vf.ch.h_c12 import padd, scale  # noqa: E402
+
+
+def _cgrad(d, k, g0):
+    """reverse-mode gradient w.r.t. the dict d of f(d) = k*d['a'] (+ d['b'] if present), cotangent g0"""
+    def f(dd):
+        r = scale(dd["a"], k)
+        if "b" in d:
+            r = padd(r, dd["b"])
+        return r
+
+    vjp, val = make_vjp(f, d)
+    return vjp(Q(g0))
+
+
+def _apply(d, act, b):
+    if act == 1:
+        d["c"] = Q(7)  # grow
+    elif act == 2:
+        d.pop("b", None)  # shrink
+    elif act == 3:
+        d["b"] = 5  # a leaf autograd has no vector space for: the next differentiation must fail
+    elif act == 4:
+        d["b"] = Q(b)  # repair / restore
+    return d
+
+
+def container_history(acts, a, b, k, g0, other_first):
+    if other_first:
+        # an unrelated successful container gradient first (fills any cache with a different structure)
+        o = {"p": Q(1), "q": Q(2), "r": Q(3)}
+        _cgrad_other = make_vjp(lambda dd: padd(dd["p"], dd["r"]), o)[0](Q(1))
+        if sorted(_cgrad_other.keys()) != ["p", "q", "r"]:
+            return False
+    d = {"a": Q(a), "b": Q(b)}
+    for act in acts:
+        _apply(d, act, b)
+        faulty_leaf = any(not isinstance(v, Q) for v in d.values())
+        try:
+            got = _cgrad(d, k, g0)
+        except Exception:
+            if not faulty_leaf:
+                return False
+            continue
+        if faulty_leaf:
+            return False  # a container with an unsupported leaf was differentiated without complaint
+        # (key ORDER is not compared: CrossHair's interception of dict comprehensions does not preserve it)
+        if sorted(got.keys()) != sorted(d.keys()):
+            return False
+        for key in sorted(got.keys()):
+            val = got[key]
+            want = k * g0 if key == "a" else (g0 if key == "b" else 0)
+            if not isinstance(val, Q) or val.v != want:
+                return False
+    return True
+
+
+def _container_history3(a1: int, a2: int, a3: int, a: int, b: int, k: int, g0: int, other_first: bool) -> bool:
+    """
+    pre: 0 <= a1 <= 4 and 0 <= a2 <= 4 and 0 <= a3 <= 4
+    post: _
+    """
+    return container_history([a1, a2, a3], a, b, k, g0, other_first)
+
+
+def _container_history_reach(a1: int, a2: int, a: int, k: int) -> bool:
+    """
+    pre: 0 <= a1 <= 4 and 0 <= a2 <= 4
+    post: False
+    """
+    return container_history([a1, a2, 0], a, 1, k, 1, True)
